@@ -65,6 +65,13 @@ def run(ctx):
     combos = combos[: ctx.n(60, 10**6)]
     for (m, N, kind, exit_node, ws) in combos:
         g = gen.gen_loop(rng, m=m, N=N, kind=kind, exit_node=exit_node, wait_sync=ws, accum=False)
+        if rng.random() < 0.3:
+            # the loop entered at its first body node; an upstream node that could run on its defaults alone is out of scope:
+            # it never runs and never counts as pending work (budgets are exact)
+            g["nodes"].append({"name": "prep", "kind": "func", "inputs": ["scale"], "outputs": ["x"], "emit": [], "wait_for": [],
+                               "defaults": {"scale": 1}, "fn": ["add", 100]})
+            rng.shuffle(g["nodes"])
+            g["entrypoints"] = ["b1"]
         iters = N if not ws else max(N, 1)
         need = (m + 1) * iters + (0 if ws else 1) + (1 if exit_node else 0)
         for fuel in sorted({0, max(0, need - 1), need, need + 1, 200}):      # 0 is a budget too: no superstep at all
